@@ -16,6 +16,30 @@ CLAIMS = {
     ref="DESIGN.md §5 C17, §4.2"),
 }
 
+SIMNOTE = "Trusted: Coq kernel, ExtrOcamlBasic extraction, OCaml driver, Python generators/canonicaliser/oracles, harness simh (generic script model over the public API); Sim.v is hand-written and tied to /repo by differential execution on the same benches (samples); std Mutex/BinaryHeap, tai_time, Rust async desugaring, executors' scheduling (covered as nondeterministic choice) are modelled, not verified. "
+CLAIMS.update({
+ "C01": dict(
+    text="Coq theorems about Sim.v for every bench, state, command and schedule: the queue invariant 'every pending action is due strictly after now' is established by init and kept by every command; time never decreases; only step/step_until move it; a successful step_until ends at its target; a step moves to a pending non-cancelled deadline within the bound and leaves nothing due behind (c01_command, c01_init, c01_time_monotone_pending_future, c01_step, c01_run_keeps_time). Tie: same benches on the real Simulation (1..16 threads) and the extracted model, exact log comparison for schedule-independent benches, multiset comparison otherwise; direct oracles (time monotone, handler sees step time, driver events fire exactly at deadline in order).",
+    note=SIMNOTE + "Hypothesis r <> RHang (stepping loop termination) is discharged only through C08's witnesses; fire-order across different deadlines is implied by the per-step statements, not stated as one trace theorem.",
+    technique="Coq proof (inductive invariant over commands and run steps) + differential bench correspondence + direct oracles",
+    ref="DESIGN.md §5 C01, §4.4"),
+ "C08": dict(
+    text="Coq theorems: a request of any kind is accepted iff deadline > now and the (checked) period is non-null, a rejected request changes nothing, an accepted one adds exactly one entry at its deadline/origin with the next epoch; requests and all run steps keep the 'pending strictly in the future' invariant, so an accepted occurrence cannot be fired late or dropped by a stepping call that returns; refutation witness for the pinned tree (zero-period source action: step never returns) and its repair. Tie: malformed-input stream x all request kinds from driver and handlers, watch-dogged stepping calls, on 1..8 threads.",
+    note=SIMNOTE + "Partial: the race between Scheduler handles on other threads and step() is modelled at lock granularity (requests are atomic steps); real-thread histories are not yet linearised against the model; a general termination bound for the stepping loop is not proved (known defect F4 fixed; witnesses in Properties/C08.v).",
+    technique="Coq proof (request specification + invariant) + refutation witness by vm_compute + differential bench correspondence",
+    ref="DESIGN.md §5 C08"),
+ "C11": dict(
+    text="Coq theorems: once terminated, step/step_until/process_event/process_query/process return Terminated and leave the entire state unchanged (c11_fatal_sticky); every fatal result terminates (c11_fatal_terminates); InvalidDeadline and scheduling errors change nothing (non-fatal); run results are exactly classify's (c11_run_result); refutation witness of the pinned tree (F1) and post-fix example. Tie: fault-sequence enumeration (9 fault kinds x prefixes x tails of further calls, 1 and 4 threads) with exact comparison of results/times/logs and the oracle 'after fatal: Terminated, no handler, no time change'.",
+    note=SIMNOTE + "Timeout is produced by wall-clock overrun and is not modelled (no bench generates it); attribution of Panic/NoRecipient is by definition of classify + correspondence.",
+    technique="Coq proof (case analysis of the driver) + exhaustive fault-sequence enumeration against the implementation",
+    ref="DESIGN.md §5 C11"),
+ "C18": dict(
+    text="Coq theorems: every bounded step writes either nothing or ETime T, exactly one EClock T, then only handler-level entries; a lag above the tolerance yields OutOfSync(lag) with nothing after the clock call and termination, otherwise never OutOfSync (c18_step_gate, c18_tolerance); init synchronises on t0 before any init entry (c18_init_first); clock arguments follow the strictly increasing step times (c18_monotone_args); refutation witness of the pinned tree (F3). Tie: scripted recording clock with OutOfSync answers at arbitrary call indices, tolerances, random step/step_until partitions; call-protocol oracle on the implementation log.",
+    note=SIMNOTE + "The final jump of step_until is covered by the model definition + correspondence + the F3 witness, not by a separate theorem.",
+    technique="Coq proof (log-shape lemma per step) + differential bench correspondence with a scripted clock",
+    ref="DESIGN.md §5 C18"),
+})
+
 PENDING_REASON = "check not built yet in this snapshot (planned per DESIGN.md section 5/8); not claimed until its check exists"
 
 def main():
